@@ -69,7 +69,7 @@ fn rel_class(a: &MI, b: &MI) -> &'static str {
 }
 
 fn check_pair<T: PartialOrd + Clone + Debug>(ia: &Interval<T>, ib: &Interval<T>, want: Option<Ordering>, want_eq: bool, kp: &str, obs: &mut Obs) -> PResult {
-    obs.evals(7);
+    obs.evals(10);
     let got = ia.partial_cmp(ib);
     ensure!(got == want, format!("C15/partial_cmp/{kp}"), "partial_cmp({ia:?}, {ib:?}) = {got:?}, definition says {want:?}");
     let eq = ia == ib;
@@ -83,7 +83,10 @@ fn check_pair<T: PartialOrd + Clone + Debug>(ia: &Interval<T>, ib: &Interval<T>,
     ensure!(le == matches!(want, Some(Ordering::Less | Ordering::Equal)), format!("C15/le/{kp}"), "({ia:?} <= {ib:?}) = {le}, definition says {want:?}");
     let ge = ia >= ib;
     ensure!(ge == matches!(want, Some(Ordering::Greater | Ordering::Equal)), format!("C15/ge/{kp}"), "({ia:?} >= {ib:?}) = {ge}, definition says {want:?}");
-    ensure!(!(ia < ia), format!("C15/irreflexive/{kp}"), "{ia:?} < itself");
+    let gt = ia > ib;
+    ensure!(gt == (want == Some(Ordering::Greater)), format!("C15/gt/{kp}"), "({ia:?} > {ib:?}) = {gt}, definition says {want:?}");
+    ensure!(gt == (ib < ia), format!("C15/gt_iff_lt_reversed/{kp}"), "({ia:?} > {ib:?}) = {gt} but ({ib:?} < {ia:?}) = {}", ib < ia);
+    ensure!(!(ia < ia) && !(ia > ia) && ia <= ia && ia >= ia, format!("C15/irreflexive/{kp}"), "{ia:?} compared with itself: < {} > {} <= {} >= {}", ia < ia, ia > ia, ia <= ia, ia >= ia);
     Ok(())
 }
 
